@@ -1,9 +1,10 @@
 import MemVerif.Lemmas.C01Any
 import MemVerif.Lemmas.C01Pool
 /-!
-C01, pool level, for **both intrusive free lists** (`memory_pool<node_pool>` in every configuration — unordered in
-release builds, ordered when double-deallocation checking is on — and `memory_pool<array_pool>`, always ordered):
-every `memory_pool` operation preserves `PInvG`, and the history theorem `GPool.run_invG`.
+C01, pool level, for **all three free lists** (`memory_pool<node_pool>` in every configuration — unordered in
+release builds, ordered when double-deallocation checking is on —, `memory_pool<array_pool>`, always ordered, and
+`memory_pool<small_node_pool>`): every `memory_pool` operation preserves `PInvG`, and the history theorem
+`GPool.run_invG`.
 
 Compared with `C01Pool.lean` (unordered list only) the invariant is stated over the list's *cells* (`CellInv`,
 order-independent) plus the list's own structural invariant (`AnyList.SInv`; for the ordered list `OrdList.Inv`:
@@ -14,40 +15,60 @@ namespace MemVerif.Model
 open MemVerif.Gen
 
 /-- the list object's proxy words `[B, B + 16)` lie outside every block in use -/
-def ObjOut (o : Option Nat) (used : List Blk) : Prop :=
-  match o with
+def ObjOut (o : AnyList.ListObj) (used : List Blk) : Prop :=
+  match o.addr with
   | none => True
   | some B => ∀ b ∈ used, B + 16 ≤ b.base ∨ b.base + b.size ≤ B
 
-instance (o : Option Nat) (used : List Blk) : Decidable (ObjOut o used) := by
-  unfold ObjOut; cases o <;> exact inferInstance
+instance (o : AnyList.ListObj) (used : List Blk) : Decidable (ObjOut o used) := by
+  unfold ObjOut; cases o.addr <;> exact inferInstance
 
-theorem ObjOut.suffix {o : Option Nat} {u u' : List Blk} (h : ObjOut o u') (hs : u <:+ u') : ObjOut o u := by
-  cases o with
+theorem ObjOut.suffix {o : AnyList.ListObj} {u u' : List Blk} (h : ObjOut o u') (hs : u <:+ u') : ObjOut o u := by
+  unfold ObjOut at h ⊢
+  cases ha : o.addr with
   | none => trivial
-  | some B => exact fun b hb => h b (hs.subset hb)
+  | some B => rw [ha] at h; exact fun b hb => h b (hs.subset hb)
 
 /-- the environment's obligations on a used-block list (EnvOk) -/
-def EnvOkG (o : Option Nat) (used : List Blk) : Prop := BlocksOk used ∧ ObjOut o used
+def EnvOkG (o : AnyList.ListObj) (used : List Blk) : Prop := BlocksOk used ∧ ObjOut o used
 
-instance (o : Option Nat) (used : List Blk) : Decidable (EnvOkG o used) := by unfold EnvOkG; exact inferInstance
+instance (o : AnyList.ListObj) (used : List Blk) : Decidable (EnvOkG o used) := by unfold EnvOkG; exact inferInstance
 
-theorem EnvOkG.suffix {o : Option Nat} {u u' : List Blk} (h : EnvOkG o u') (hs : u <:+ u') : EnvOkG o u :=
+theorem EnvOkG.suffix {o : AnyList.ListObj} {u u' : List Blk} (h : EnvOkG o u') (hs : u <:+ u') : EnvOkG o u :=
   ⟨h.1.suffix hs, h.2.suffix hs⟩
 
-/-- number of cells the blocks in use were cut into (`usable size / node size` each) -/
-def blockCells (ns : Nat) (used : List Blk) : Nat := (used.map fun b => b.usable.size / ns).sum
+/-- the cells the blocks in use were cut into by the pool's list -/
+def cellsOfBlocks (l : AnyList) (used : List Blk) : List Nat := used.flatMap l.blockCells
 
-/-- the cells the blocks in use were cut into: `usable size / node size` cells from the start of each usable part -/
+@[simp] theorem cellsOfBlocks_cons (l : AnyList) (b : Blk) (used : List Blk) :
+    cellsOfBlocks l (b :: used) = l.blockCells b ++ cellsOfBlocks l used := by
+  simp [cellsOfBlocks]
+
+theorem cellsOfBlocks_same {l l' : AnyList} (h : AnyList.Same l l') (used : List Blk) :
+    cellsOfBlocks l' used = cellsOfBlocks l used := by
+  unfold cellsOfBlocks
+  congr 1
+  funext b
+  exact h.blk b
+
+/-- intrusive lists: `usable size / node size` cells from the start of each usable part -/
 def blockCellList (ns : Nat) (used : List Blk) : List Nat :=
   used.flatMap fun b => blockNodes b.usable.base ns (b.usable.size / ns)
 
-@[simp] theorem blockCellList_cons (ns : Nat) (b : Blk) (used : List Blk) :
-    blockCellList ns (b :: used) = blockNodes b.usable.base ns (b.usable.size / ns) ++ blockCellList ns used := by
-  simp [blockCellList]
+/-- … and their number -/
+def blockCells (ns : Nat) (used : List Blk) : Nat := (used.map fun b => b.usable.size / ns).sum
 
-@[simp] theorem blockCells_cons (ns : Nat) (b : Blk) (used : List Blk) :
-    blockCells ns (b :: used) = b.usable.size / ns + blockCells ns used := by simp [blockCells]
+theorem blockCellList_length (ns : Nat) (used : List Blk) : (blockCellList ns used).length = blockCells ns used := by
+  induction used with
+  | nil => rfl
+  | cons b used ih => simp [blockCellList, blockCells] at ih ⊢; try omega
+
+theorem cellsOfBlocks_intrusive (l : AnyList) (used : List Blk) (h : ∀ P, l.obj ≠ .small P) :
+    cellsOfBlocks l used = blockCellList l.nodeSize used := by
+  cases l with
+  | free fl => rfl
+  | ord ol => rfl
+  | small sl => exact absurd rfl (h sl.P)
 
 theorem liveCells_length_cons (ns : Nat) (a b : Nat) (live : List (Nat × Nat)) :
     (liveCells ns ((a, b) :: live)).length = cellsOf ns b + (liveCells ns live).length := by
@@ -58,34 +79,40 @@ theorem liveCells_length_erase {ns : Nat} {live : List (Nat × Nat)} {i a b : Na
   have := (liveCells_erase (ns := ns) h).length_eq
   simpa using this
 
-/-- **The C01 invariant of a pool over an intrusive list**: node size `ns`, list object `o`. -/
-structure PInvG (ns : Nat) (o : Option Nat) (p : Pool) (live : List (Nat × Nat)) : Prop where
+/-- **The C01 invariant of a pool (any of the three list types)**: node size `ns`, list object `o`. -/
+structure PInvG (ns : Nat) (o : AnyList.ListObj) (p : Pool) (live : List (Nat × Nat)) : Prop where
   nsEq : p.list.nodeSize = ns
   objEq : p.list.obj = o
-  sinv : p.list.SInv
+  sinv : p.list.SInv p.arena.used live
   cell : CellInv ns p.list.cells p.arena.used live
-  /-- **exact accounting**: every cell of every block in use is either free or part of a live allocation -/
-  full : p.list.cells.length + (liveCells ns live).length = blockCells ns p.arena.used
   /-- **conservation**: free cells + cells of live allocations are, as a multiset, exactly the cells the blocks in use
-  were cut into -/
-  conserve : (p.list.cells ++ liveCells ns live).Perm (blockCellList ns p.arena.used)
+  were cut into (every cell of every block is either free or part of exactly one live allocation) -/
+  conserve : (p.list.cells ++ liveCells ns live).Perm (cellsOfBlocks p.list p.arena.used)
+
+/-- **exact accounting** -/
+theorem PInvG.full {ns : Nat} {o : AnyList.ListObj} {p : Pool} {live : List (Nat × Nat)} (h : PInvG ns o p live) :
+    p.list.cells.length + (liveCells ns live).length = (cellsOfBlocks p.list p.arena.used).length := by
+  have := h.conserve.length_eq
+  simpa using this
 
 /-- a range inside the usable part of a used block lies outside the list object -/
-theorem outObj_of_inBlk {o : Option Nat} {used : List Blk} (ho : ObjOut o used) {b : Blk} (hb : b ∈ used)
+theorem outObj_of_inBlk {o : AnyList.ListObj} {used : List Blk} (ho : ObjOut o used) {b : Blk} (hb : b ∈ used)
     {a len : Nat} (hi : InBlk b a len) : AnyList.OutObj o a len := by
-  cases o with
+  unfold ObjOut at ho
+  unfold AnyList.OutObj
+  cases ha : o.addr with
   | none => trivial
   | some B =>
+    rw [ha] at ho
     have := ho b hb
     unfold InBlk at hi
     rw [implOff_eq] at hi
-    unfold AnyList.OutObj
     simp only
     omega
 
 /-! ### allocate_block -/
 
-theorem Pool.allocateBlock_invG {ns : Nat} {o : Option Nat} {p : Pool} {live : List (Nat × Nat)} (cfg : Cfg)
+theorem Pool.allocateBlock_invG {ns : Nat} {o : AnyList.ListObj} {p : Pool} {live : List (Nat × Nat)} (cfg : Cfg)
     (env : List (Option Nat)) (h : PInvG ns o p live) (hb : EnvOkG o (p.allocateBlock cfg env).st.arena.used) :
     PInvG ns o (p.allocateBlock cfg env).st live ∧ (∀ a, (p.allocateBlock cfg env).out ≠ .ok a) := by
   have hsub := (Pool.allocateBlock_ext cfg p env).suffix.subset
@@ -96,8 +123,9 @@ theorem Pool.allocateBlock_invG {ns : Nat} {o : Option Nat} {p : Pool} {live : L
   | fail a e ev env' =>
     simp only [harena] at hb hsub ⊢
     have hu := Arena.allocateBlock_fail harena
-    exact ⟨⟨h.nsEq, h.objEq, h.sinv, h.cell.mono hb.1 (fun b hb => hsub hb), by show _ = blockCells ns a.used; rw [hu]; exact h.full,
-      by show List.Perm _ (blockCellList ns a.used); rw [hu]; exact h.conserve⟩, by simp⟩
+    refine ⟨⟨h.nsEq, h.objEq, ?_, h.cell.mono hb.1 (fun b hb => hsub hb), ?_⟩, by simp⟩
+    · show p.list.SInv a.used live; rw [hu]; exact h.sinv
+    · show List.Perm _ (cellsOfBlocks p.list a.used); rw [hu]; exact h.conserve
   | ok a ub ev env' =>
     simp only [harena] at hb hsub ⊢
     obtain ⟨blk, h1, rfl⟩ := Arena.allocateBlock_ok harena
@@ -118,92 +146,77 @@ theorem Pool.allocateBlock_invG {ns : Nat} {o : Option Nat} {p : Pool} {live : L
       unfold Blk.Disj at hd
       rw [implOff_eq] at hy1
       omega
-    have hout : AnyList.OutObj p.list.obj blk.usable.base (blk.usable.size / p.list.nodeSize * p.list.nodeSize) := by
-      rw [h.nsEq, h.objEq]
+    have hout : AnyList.OutObj p.list.obj blk.usable.base blk.usable.size := by
+      rw [h.objEq]
       refine outObj_of_inBlk hbu.2 (b := blk) (by simp) ?_
       unfold InBlk; rw [implOff_eq]; omega
-    have htot := AnyList.insert_total cfg (mem := blk.usable.base) (size := blk.usable.size) h.sinv
-      (by rw [h.nsEq]; exact hnsP) hap hout (by omega)
-    rw [h.nsEq] at htot
-    -- a block too small for one node is pushed without contributing a cell
-    have hzero : blk.usable.size / ns = 0 → ∀ r : PRes Pool, r.st = { p with arena := a } → (∀ x, r.out ≠ .ok x) →
-        PInvG ns o r.st live ∧ (∀ x, r.out ≠ .ok x) := by
-      intro hz r hr hno
-      rw [hr]
-      exact ⟨⟨h.nsEq, h.objEq, h.sinv, by show CellInv ns p.list.cells a.used live; rw [h1]; exact h.cell.mono hbu.1 (by simp +contextual),
-        by show _ = blockCells ns a.used; rw [h1, blockCells_cons, hz, Nat.zero_add]; exact h.full,
-        by show List.Perm _ (blockCellList ns a.used); rw [h1, blockCellList_cons, hz]; exact h.conserve⟩, hno⟩
-    cases hins : p.list.insert cfg blk.usable.base blk.usable.size with
-    | handler k =>
-      rcases htot with ⟨l', hl'⟩ | hz
-      · rw [hins] at hl'; cases hl'
-      · exact hzero hz _ rfl (by simp)
-    | crash =>
-      rcases htot with ⟨l', hl'⟩ | hz
-      · rw [hins] at hl'; cases hl'
-      · exact hzero hz _ rfl (by simp)
-    | ok l' =>
-      obtain ⟨hperm, hsame⟩ := AnyList.insert_spec cfg h.sinv (by rw [h.nsEq]; exact hnsP) hap hout (by omega) hins
-      rw [h.nsEq] at hperm
-      refine ⟨⟨hsame.ns.trans h.nsEq, hsame.obj.trans h.objEq, hsame.sinv, ?_, ?_, ?_⟩, by simp⟩
+    have hblk := AnyList.insert_block cfg (blk := blk) h.sinv (by rw [h.nsEq]; exact hnsP) hbu.1 hap hout
+    have hspec := AnyList.blockCells_spec p.list (by rw [h.nsEq]; exact hnsP) blk
+    rw [h.nsEq] at hspec
+    rcases hblk with ⟨l', hins, hperm, hsame, hsinv⟩ | ⟨hz, hno⟩
+    · simp only [hins]
+      refine ⟨⟨hsame.ns.trans h.nsEq, hsame.obj.trans h.objEq, ?_, ?_, ?_⟩, by simp⟩
+      · show l'.SInv a.used live; rw [h1]; exact hsinv
       · show CellInv ns l'.cells a.used live
         rw [h1]
-        exact h.cell.insertCells hbu.1 (blockNodes_pairwise _ _ _)
-          (CellInv.blockNodes_in (Nat.le_refl _) (Nat.le_refl _)) hperm
-      · show l'.cells.length + _ = blockCells ns a.used
-        rw [h1, blockCells_cons, hperm.length_eq, List.length_append, blockNodes_length, ← h.full]
-        omega
-      · show (l'.cells ++ liveCells ns live).Perm (blockCellList ns a.used)
-        rw [h1, blockCellList_cons]
+        exact h.cell.insertCells hbu.1 hspec.1 hspec.2 hperm
+      · show (l'.cells ++ liveCells ns live).Perm (cellsOfBlocks l' a.used)
+        rw [h1, cellsOfBlocks_same hsame, cellsOfBlocks_cons]
         refine (List.Perm.append_right _ hperm).trans ?_
         rw [List.append_assoc]
         exact List.Perm.append_left _ h.conserve
+    · -- a block too small for one cell is pushed without contributing any
+      have key : PInvG ns o { p with arena := a } live := by
+        refine ⟨h.nsEq, h.objEq, ?_, ?_, ?_⟩
+        · show p.list.SInv a.used live; rw [h1]; exact h.sinv.mono (by simp +contextual)
+        · show CellInv ns p.list.cells a.used live; rw [h1]; exact h.cell.mono hbu.1 (by simp +contextual)
+        · show List.Perm _ (cellsOfBlocks p.list a.used); rw [h1, cellsOfBlocks_cons, hz]; exact h.conserve
+      cases hins : p.list.insert cfg blk.usable.base blk.usable.size with
+      | handler k => exact ⟨key, by simp⟩
+      | crash => exact ⟨key, by simp⟩
+      | ok l' => exact absurd hins (hno l')
 
 /-! ### taking from / giving to the list, at pool level -/
 
-theorem PInvG.alloc {ns : Nat} {o : Option Nat} {p : Pool} {live : List (Nat × Nat)} (h : PInvG ns o p live)
+theorem PInvG.alloc {ns : Nat} {o : AnyList.ListObj} {p : Pool} {live : List (Nat × Nat)} (h : PInvG ns o p live)
     {l : AnyList} {a bytes : Nat} (hb : bytes ≤ ns) (ha : p.list.allocate = some (l, a)) :
     PInvG ns o { p with list := l } ((a, bytes) :: live) := by
-  obtain ⟨B, h1, h2, hsame⟩ := AnyList.allocate_spec h.sinv ha
+  obtain ⟨A, B, h1, h2, hsame, hsinv⟩ := AnyList.allocate_spec (bytes := bytes) h.sinv (by rw [h.nsEq]; exact hb) ha
   have hc : cellsOf ns bytes = 1 := by simp [cellsOf, hb]
-  refine ⟨hsame.ns.trans h.nsEq, hsame.obj.trans h.objEq, hsame.sinv, ?_, ?_, ?_⟩
-  · exact h.cell.take (A := []) (B := B) (f := a) (bytes := bytes) (by rw [hc, blockNodes_one, h1]; rfl) (by rw [h2]; rfl)
-  · show l.cells.length + _ = _
-    rw [liveCells_length_cons, hc, h2, ← h.full, h1]
-    simp only [List.length_cons]; omega
-  · show (l.cells ++ liveCells ns ((a, bytes) :: live)).Perm _
+  refine ⟨hsame.ns.trans h.nsEq, hsame.obj.trans h.objEq, hsinv, ?_, ?_⟩
+  · exact h.cell.take (A := A) (B := B) (f := a) (bytes := bytes) (by rw [hc, blockNodes_one, h1]) h2
+  · show (l.cells ++ liveCells ns ((a, bytes) :: live)).Perm (cellsOfBlocks l p.arena.used)
+    rw [cellsOfBlocks_same hsame]
     refine List.Perm.trans ?_ h.conserve
     rw [liveCells_cons, hc, blockNodes_one, h2, h1]
-    exact (perm_take [] B [a] (liveCells ns live))
+    exact perm_take A B [a] (liveCells ns live)
 
-theorem PInvG.allocBytes {ns : Nat} {o : Option Nat} {p : Pool} {live : List (Nat × Nat)} (h : PInvG ns o p live)
+theorem PInvG.allocBytes {ns : Nat} {o : AnyList.ListObj} {p : Pool} {live : List (Nat × Nat)} (h : PInvG ns o p live)
     {l : AnyList} {a bytes : Nat} (ha : p.list.allocateBytes bytes = some (l, some a)) :
     PInvG ns o { p with list := l } ((a, bytes) :: live) := by
-  obtain ⟨A, B, h1, h2, hsame⟩ := AnyList.allocateBytes_spec h.sinv (by rw [h.nsEq]; exact h.cell.nsPos) ha
+  obtain ⟨A, B, h1, h2, hsame, hsinv⟩ := AnyList.allocateBytes_spec h.sinv (by rw [h.nsEq]; exact h.cell.nsPos) ha
   rw [h.nsEq] at h1
-  refine ⟨hsame.ns.trans h.nsEq, hsame.obj.trans h.objEq, hsame.sinv, h.cell.take h1 h2, ?_, ?_⟩
-  · show l.cells.length + _ = _
-    rw [liveCells_length_cons, h2, ← h.full, h1]
-    simp only [List.length_append, blockNodes_length]; omega
-  · show (l.cells ++ liveCells ns ((a, bytes) :: live)).Perm _
-    refine List.Perm.trans ?_ h.conserve
-    rw [liveCells_cons, h2, h1]
-    exact perm_take A B _ (liveCells ns live)
+  refine ⟨hsame.ns.trans h.nsEq, hsame.obj.trans h.objEq, hsinv, h.cell.take h1 h2, ?_⟩
+  show (l.cells ++ liveCells ns ((a, bytes) :: live)).Perm (cellsOfBlocks l p.arena.used)
+  rw [cellsOfBlocks_same hsame]
+  refine List.Perm.trans ?_ h.conserve
+  rw [liveCells_cons, h2, h1]
+  exact perm_take A B _ (liveCells ns live)
 
 /-- postcondition of an allocation function: a returned address is entered in the ledger with `bytes` -/
-def PostG (ns : Nat) (o : Option Nat) (live : List (Nat × Nat)) (bytes : Nat) (r : PRes Pool) : Prop :=
+def PostG (ns : Nat) (o : AnyList.ListObj) (live : List (Nat × Nat)) (bytes : Nat) (r : PRes Pool) : Prop :=
   match r.out with
   | .ok a => PInvG ns o r.st ((a, bytes) :: live)
   | _ => PInvG ns o r.st live
 
-theorem PostG.of_not_ok {ns : Nat} {o : Option Nat} {live : List (Nat × Nat)} {bytes : Nat} {r : PRes Pool}
+theorem PostG.of_not_ok {ns : Nat} {o : AnyList.ListObj} {live : List (Nat × Nat)} {bytes : Nat} {r : PRes Pool}
     (h : PInvG ns o r.st live) (hn : ∀ a, r.out ≠ .ok a) : PostG ns o live bytes r := by
   unfold PostG
   split
   · rename_i a ha; exact absurd ha (hn a)
   · exact h
 
-theorem PostG.ledger {ns : Nat} {o : Option Nat} {live : List (Nat × Nat)} {bytes : Nat} {r : PRes Pool}
+theorem PostG.ledger {ns : Nat} {o : AnyList.ListObj} {live : List (Nat × Nat)} {bytes : Nat} {r : PRes Pool}
     (h : PostG ns o live bytes r) :
     PInvG ns o r.st (match r.out with | .ok a => (a, bytes) :: live | _ => live) := by
   unfold PostG at h
@@ -211,7 +224,7 @@ theorem PostG.ledger {ns : Nat} {o : Option Nat} {live : List (Nat × Nat)} {byt
 
 /-! ### allocate_node / try_allocate_node -/
 
-theorem Pool.allocateNode_postG {ns : Nat} {o : Option Nat} {p : Pool} {live : List (Nat × Nat)} (cfg : Cfg)
+theorem Pool.allocateNode_postG {ns : Nat} {o : AnyList.ListObj} {p : Pool} {live : List (Nat × Nat)} (cfg : Cfg)
     (env : List (Option Nat)) (h : PInvG ns o p live) (hb : EnvOkG o (p.allocateNode cfg env).st.arena.used) :
     PostG ns o live ns (p.allocateNode cfg env) := by
   unfold Pool.allocateNode at hb ⊢
@@ -241,7 +254,7 @@ theorem Pool.allocateNode_postG {ns : Nat} {o : Option Nat} {p : Pool} {live : L
     · rename_i l a hal
       exact h.alloc (Nat.le_refl _) hal
 
-theorem Pool.tryAllocateNode_postG {ns : Nat} {o : Option Nat} {p : Pool} {live : List (Nat × Nat)}
+theorem Pool.tryAllocateNode_postG {ns : Nat} {o : AnyList.ListObj} {p : Pool} {live : List (Nat × Nat)}
     (h : PInvG ns o p live) : PostG ns o live ns p.tryAllocateNode := by
   unfold Pool.tryAllocateNode
   split
@@ -253,7 +266,7 @@ theorem Pool.tryAllocateNode_postG {ns : Nat} {o : Option Nat} {p : Pool} {live 
 
 /-! ### arrays -/
 
-theorem Pool.allocateArrayBytes_postG {ns : Nat} {o : Option Nat} {p : Pool} {live : List (Nat × Nat)} (cfg : Cfg)
+theorem Pool.allocateArrayBytes_postG {ns : Nat} {o : AnyList.ListObj} {p : Pool} {live : List (Nat × Nat)} (cfg : Cfg)
     (bytes : Nat) (env : List (Option Nat)) (h : PInvG ns o p live)
     (hb : EnvOkG o (p.allocateArrayBytes cfg bytes env).st.arena.used) :
     PostG ns o live bytes (p.allocateArrayBytes cfg bytes env) := by
@@ -291,10 +304,10 @@ theorem Pool.allocateArrayBytes_postG {ns : Nat} {o : Option Nat} {p : Pool} {li
       · rename_i hdone; exact absurd hdone hnd
       · exact PostG.of_not_ok (hblk hb).1 (hblk hb).2
 
-theorem PInvG.nodeSize {ns : Nat} {o : Option Nat} {p : Pool} {live : List (Nat × Nat)} (h : PInvG ns o p live) :
+theorem PInvG.nodeSize {ns : Nat} {o : AnyList.ListObj} {p : Pool} {live : List (Nat × Nat)} (h : PInvG ns o p live) :
     p.nodeSize = ns := h.nsEq
 
-theorem Pool.allocateArray_postG {ns : Nat} {o : Option Nat} {p : Pool} {live : List (Nat × Nat)} (cfg : Cfg)
+theorem Pool.allocateArray_postG {ns : Nat} {o : AnyList.ListObj} {p : Pool} {live : List (Nat × Nat)} (cfg : Cfg)
     (n : Nat) (env : List (Option Nat)) (h : PInvG ns o p live)
     (hb : EnvOkG o (p.allocateArray cfg n env).st.arena.used) :
     PostG ns o live (mul64 n ns) (p.allocateArray cfg n env) := by
@@ -308,7 +321,7 @@ theorem Pool.allocateArray_postG {ns : Nat} {o : Option Nat} {p : Pool} {live : 
   · rw [if_neg hle] at hb ⊢
     exact Pool.allocateArrayBytes_postG cfg _ env h hb
 
-theorem Pool.tryAllocateArrayBytes_postG {ns : Nat} {o : Option Nat} {p : Pool} {live : List (Nat × Nat)}
+theorem Pool.tryAllocateArrayBytes_postG {ns : Nat} {o : AnyList.ListObj} {p : Pool} {live : List (Nat × Nat)}
     (bytes : Nat) (h : PInvG ns o p live) : PostG ns o live bytes (p.tryAllocateArrayBytes bytes) := by
   unfold Pool.tryAllocateArrayBytes
   split
@@ -330,7 +343,7 @@ theorem give_perm {cells cells' R L L' : List Nat} (h1 : cells'.Perm (R ++ cells
 /-! ### releases -/
 
 /-- facts about the `i`-th live allocation needed by the list's release functions -/
-theorem PInvG.liveFacts {ns : Nat} {o : Option Nat} {p : Pool} {live : List (Nat × Nat)} (h : PInvG ns o p live)
+theorem PInvG.liveFacts {ns : Nat} {o : AnyList.ListObj} {p : Pool} {live : List (Nat × Nat)} (h : PInvG ns o p live)
     (ho : ObjOut o p.arena.used) {i a b : Nat} (hi : live[i]? = some (a, b)) :
     p.list.CellsApart a (cellsOf ns b) ∧ AnyList.OutObj p.list.obj a (cellsOf ns b * ns) ∧ 0 < a := by
   have hmem : (a, b) ∈ live := List.mem_of_getElem? hi
@@ -342,57 +355,49 @@ theorem PInvG.liveFacts {ns : Nat} {o : Option Nat} {p : Pool} {live : List (Nat
   · rw [h.objEq]; exact outObj_of_inBlk ho hblk hin
   · unfold InBlk at hin; rw [implOff_eq] at hin; simp only at hin; omega
 
-theorem Pool.deallocateNode_invG {ns : Nat} {o : Option Nat} {p : Pool} {live : List (Nat × Nat)} (cfg : Cfg)
+theorem Pool.deallocateNode_invG {ns : Nat} {o : AnyList.ListObj} {p : Pool} {live : List (Nat × Nat)} (cfg : Cfg)
     (h : PInvG ns o p live) (ho : ObjOut o p.arena.used) {i a b : Nat} (hi : live[i]? = some (a, b)) (hb : b ≤ ns) :
     PInvG ns o (p.deallocateNode cfg a).st (live.eraseIdx i) ∧ (p.deallocateNode cfg a).out = .done := by
   have hc : cellsOf ns b = 1 := by simp [cellsOf, hb]
   obtain ⟨hap, hout, ha0⟩ := h.liveFacts ho hi
   rw [hc] at hap hout
-  obtain ⟨l', hd, hperm, hsame⟩ := AnyList.deallocate_spec cfg h.sinv hap (by rw [h.nsEq]; simpa using hout) ha0
+  obtain ⟨l', hd, hperm, hsame, hsinv⟩ := AnyList.deallocate_spec cfg h.sinv hi hap (by rw [h.nsEq]; simpa using hout) ha0
   unfold Pool.deallocateNode
   rw [hd]
   simp only [liftList]
-  refine ⟨⟨hsame.ns.trans h.nsEq, hsame.obj.trans h.objEq, hsame.sinv, ?_, ?_, ?_⟩, trivial⟩
+  refine ⟨⟨hsame.ns.trans h.nsEq, hsame.obj.trans h.objEq, hsinv, ?_, ?_⟩, trivial⟩
   · exact h.cell.give hi (by rw [hc, blockNodes_one]; exact hperm)
-  · show l'.cells.length + _ = _
-    have := liveCells_length_erase (ns := ns) hi
-    rw [hperm.length_eq, ← h.full, this, hc]
-    simp only [List.length_cons]; omega
-  · show (l'.cells ++ liveCells ns (live.eraseIdx i)).Perm _
+  · show (l'.cells ++ liveCells ns (live.eraseIdx i)).Perm (cellsOfBlocks l' p.arena.used)
+    rw [cellsOfBlocks_same hsame]
     refine List.Perm.trans ?_ h.conserve
     have he := liveCells_erase (ns := ns) hi
     rw [hc, blockNodes_one] at he
     exact give_perm hperm he
 
-theorem Pool.deallocateBytes_invG {ns : Nat} {o : Option Nat} {p : Pool} {live : List (Nat × Nat)} (cfg : Cfg)
+theorem Pool.deallocateBytes_invG {ns : Nat} {o : AnyList.ListObj} {p : Pool} {live : List (Nat × Nat)} (cfg : Cfg)
     (h : PInvG ns o p live) (ho : ObjOut o p.arena.used) {i a b : Nat} (hi : live[i]? = some (a, b)) (hb : ns < b) :
     PInvG ns o (p.deallocateBytes cfg a b).st (live.eraseIdx i) ∧ (p.deallocateBytes cfg a b).out = .done := by
   have hc : cellsOf ns b = ceilNodes b ns := by simp [cellsOf]; omega
   obtain ⟨hap, hout, ha0⟩ := h.liveFacts ho hi
   rw [hc] at hap hout
-  obtain ⟨l', hd, hperm, hsame⟩ := AnyList.deallocateBytes_spec cfg (n := b) h.sinv (by rw [h.nsEq]; exact h.cell.nsPos)
-    (by rw [h.nsEq]; exact hb) (by rw [h.nsEq]; exact hap) (by rw [h.nsEq]; exact hout) ha0
+  obtain ⟨l', hd, hperm, hsame, hsinv⟩ := AnyList.deallocateBytes_spec cfg (n := b) h.sinv hi
+    (by rw [h.nsEq]; exact h.cell.nsPos) (by rw [h.nsEq]; exact hb) (by rw [h.nsEq]; exact hap) (by rw [h.nsEq]; exact hout) ha0
   unfold Pool.deallocateBytes
   rw [hd]
   simp only [liftList]
-  refine ⟨⟨hsame.ns.trans h.nsEq, hsame.obj.trans h.objEq, hsame.sinv, ?_, ?_, ?_⟩, trivial⟩
-  · rw [h.nsEq] at hperm
-    exact h.cell.give hi (by rw [hc]; exact hperm)
-  · show l'.cells.length + _ = _
-    rw [h.nsEq] at hperm
-    have := liveCells_length_erase (ns := ns) hi
-    rw [hperm.length_eq, ← h.full, this, hc]
-    simp only [List.length_append, blockNodes_length]; omega
-  · show (l'.cells ++ liveCells ns (live.eraseIdx i)).Perm _
+  rw [h.nsEq] at hperm
+  refine ⟨⟨hsame.ns.trans h.nsEq, hsame.obj.trans h.objEq, hsinv, ?_, ?_⟩, trivial⟩
+  · exact h.cell.give hi (by rw [hc]; exact hperm)
+  · show (l'.cells ++ liveCells ns (live.eraseIdx i)).Perm (cellsOfBlocks l' p.arena.used)
+    rw [cellsOfBlocks_same hsame]
     refine List.Perm.trans ?_ h.conserve
-    rw [h.nsEq] at hperm
     have he := liveCells_erase (ns := ns) hi
     rw [hc] at he
     exact give_perm hperm he
 
 /-! ### one step, a whole history -/
 
-theorem GPool.step_invG {ns : Nat} {o : Option Nat} (cfg : Cfg) (e : EnvS) (g : GPool) (k : Nat) (op : POp)
+theorem GPool.step_invG {ns : Nat} {o : AnyList.ListObj} (cfg : Cfg) (e : EnvS) (g : GPool) (k : Nat) (op : POp)
     (h : PInvG ns o g.p g.live) (hf : op.Fits ns) (hb : EnvOkG o (g.step cfg e k op).1.p.arena.used) :
     PInvG ns o (g.step cfg e k op).1.p (g.step cfg e k op).1.live := by
   have hns := h.nodeSize
@@ -430,7 +435,7 @@ theorem GPool.step_invG {ns : Nat} {o : Option Nat} (cfg : Cfg) (e : EnvS) (g : 
 
 /-- **Preservation over a history**, for a pool over either intrusive list. The environment's part is the
 hypothesis on the *final* used-block list (which contains every block the pool ever held). -/
-theorem GPool.run_invG {ns : Nat} {o : Option Nat} (cfg : Cfg) (e : EnvS) (ops : List POp) :
+theorem GPool.run_invG {ns : Nat} {o : AnyList.ListObj} (cfg : Cfg) (e : EnvS) (ops : List POp) :
     ∀ (g : GPool) (k : Nat), PInvG ns o g.p g.live → (∀ op ∈ ops, op.Fits ns) →
       EnvOkG o (g.run cfg e k ops).1.p.arena.used →
       PInvG ns o (g.run cfg e k ops).1.p (g.run cfg e k ops).1.live := by
@@ -453,8 +458,17 @@ theorem OrdList.new_inv (nodeSize B : Nat) (hB : 0 < B) : (OrdList.new nodeSize 
     · simp [OrdList.posOf, OrdList.new]
     · simp [OrdList.posOf, OrdList.new]
 
+/-- an empty small list is well formed -/
+theorem SmallList.new_ok (nodeSize P : Nat) (hns : 0 < nodeSize) : SmallOk (SmallList.new nodeSize P) [] [] := by
+  refine ⟨Props.C04Lists.C04_small_new nodeSize P, ⟨?_, ⟨0, by simp [SmallList.posOf, SmallList.new]⟩,
+    ⟨0, by simp [SmallList.posOf, SmallList.new]⟩, ?_⟩, hns, ?_, ?_⟩
+  · intro i j ci cj hi; simp [SmallList.new] at hi
+  · intro c hc; simp [SmallList.new] at hc
+  · intro c hc; simp [SmallList.new] at hc
+  · intro ab hab; cases hab
+
 /-- a fresh, empty list satisfies the invariant on an arena without blocks -/
-theorem PInvG.fresh (src : Src) (l : AnyList) (arrays : Bool) (hS : l.SInv) (hc : l.cells = []) (hpos : 0 < l.nodeSize) :
+theorem PInvG.fresh (src : Src) (l : AnyList) (arrays : Bool) (hS : l.SInv [] []) (hc : l.cells = []) (hpos : 0 < l.nodeSize) :
     PInvG l.nodeSize l.obj { arena := { src := src, isCached := false }, list := l, arrays := arrays } [] :=
   ⟨rfl, rfl, hS,
     { nsPos := hpos
@@ -462,11 +476,11 @@ theorem PInvG.fresh (src : Src) (l : AnyList) (arrays : Bool) (hS : l.SInv) (hc 
       apart := by simp [hc]
       freeIn := by intro x hx; simp [hc] at hx
       liveIn := by intro x hx; cases hx },
-    by simp [hc, blockCells], by simp [hc, blockCellList]⟩
+    by simp [hc, cellsOfBlocks]⟩
 
 /-- the constructor establishes the invariant (whatever its outcome) -/
 theorem Pool.create_invG (cfg : Cfg) (src : Src) (l : AnyList) (arrays : Bool) (env : List (Option Nat))
-    (hS : l.SInv) (hc : l.cells = []) (hpos : 0 < l.nodeSize)
+    (hS : l.SInv [] []) (hc : l.cells = []) (hpos : 0 < l.nodeSize)
     (hb : EnvOkG l.obj (Pool.create cfg src l arrays env).st.arena.used) :
     PInvG l.nodeSize l.obj (Pool.create cfg src l arrays env).st [] := by
   unfold Pool.create at hb ⊢
